@@ -67,6 +67,7 @@ class Window:
         self.has_uninit = False
         self.filled_after_uninit = False
         self.layers = []     # 'S' / 'U', innermost first
+        self.fixed_base = False   # the base buffer cannot grow (a VectoredBufIter position)
 
     def flatten(self):
         """Slice<Slice<T>>::flatten: the same window, one layer less"""
@@ -116,7 +117,7 @@ class Window:
         with an end refuses (documented: "Cannot reserve on a fixed-size slice")"""
         if self.E is not None:
             return False
-        return self.m.growable() or k <= self.m.cap - self.m.rlen
+        return (self.m.growable() and not self.fixed_base) or k <= self.m.cap - self.m.rlen
 
     def extend(self, j, k):
         """extend_from_slice of k bytes that reserve accepted: appended behind the initialised
@@ -235,6 +236,7 @@ def gen_steps(rng, adv, w, flat_bias=False, rsv_bias=False, view_bias=False):
     j = 0
     alive = True   # still inside the contract (parameters are then chosen in range)
     for _ in range(rng.randrange(2, 9 if flat_bias else 8)):
+        cap = w.m.full
         o, l, c = w.rng() if alive else (0, cap, cap)
         r = rng.random()
         wild = adv and rng.random() < 0.25
